@@ -13,12 +13,14 @@ pub mod c06;
 pub mod c07;
 pub mod mutgen;
 pub mod c08;
+pub mod c09;
 pub mod c10;
 pub mod c11;
 pub mod c12;
 pub mod c13;
 pub mod arith;
 pub mod c14;
+pub mod c16;
 pub mod shared;
 
 pub fn is_worker(what: &str) -> bool {
@@ -29,7 +31,8 @@ pub fn run_worker(what: &str, ctx: &Ctx, extra: &[String]) {
     match what {
         "c14-cases" => c14::cases(ctx, extra),
         "probe-worker" => crate::common::on_big_stack(|| probe(extra)),
-        "c14-worker" => crate::common::on_big_stack(c14::worker),
+        "c14-worker" => c14::worker(ctx),
+        "c09-worker" => crate::common::on_big_stack(c09::worker),
         _ => {
             eprintln!("unknown worker {what}");
             std::process::exit(3);
@@ -47,10 +50,12 @@ pub fn run(what: &str, ctx: &Ctx, _extra: &[String]) -> Option<Report> {
         "C06" => c06::run(ctx),
         "C07" => c07::run(ctx),
         "C08" => c08::run(ctx),
+        "C09" => c09::run(ctx),
         "C10" => c10::run(ctx),
         "C11" => c11::run(ctx),
         "C12" => c12::run(ctx),
         "C13" => c13::run(ctx),
+        "C16" => c16::run(ctx),
         _ => return None,
     })
 }
